@@ -3,6 +3,8 @@ package verifharness
 // C12 (c)(d)(e): structural damage of specification-generated messages, 64 KiB worst cases, and the resolver.
 
 import (
+	"strings"
+	"bytes"
 	"context"
 	"fmt"
 	"net"
@@ -322,6 +324,75 @@ func TestDnsAdversarial(t *testing.T) {
 		check("fanout", "0", msg)
 		if d := time.Since(t0); d > 2*time.Second {
 			report("fanout", "0", fmt.Sprintf("took %v", d), msg[:64])
+		}
+	}
+	// partial failures while the resolver consumes answers: each of the lookups it makes for a service-mode target and for
+	// the origin fails in turn (SERVFAIL / NXDOMAIN / an undecodable body) while the others succeed
+	{
+		lookups := []string{"https", "tA", "tAAAA", "oA", "oAAAA"}
+		for _, failing := range lookups {
+			for _, how := range []int{2, 3, -1} {
+				srv2 := newDoHServer(func(id int, name string, qtype int) ([]byte, int) {
+					which := ""
+					switch {
+					case qtype == tHTTPS:
+						which = "https"
+					case strings.HasPrefix(name, "svc-target") && qtype == tA:
+						which = "tA"
+					case strings.HasPrefix(name, "svc-target"):
+						which = "tAAAA"
+					case qtype == tA:
+						which = "oA"
+					default:
+						which = "oAAAA"
+					}
+					if which == failing {
+						if how < 0 {
+							return []byte{0, 0, 0x81, 0x80, 0, 1, 0, 1}, 200 // cut in the header
+						}
+						return wResponse(id, name, qtype, how, nil), 200
+					}
+					switch which {
+					case "https":
+						return wResponse(id, name, qtype, 0, []wRR{rrHTTPS(name, 60, 1, "svc-target.example", svcParams{ALPN: []string{"h2"}}), rrHTTPS(name, 60, 2, "", svcParams{})}), 200
+					case "tA", "oA":
+						return wResponse(id, name, qtype, 0, []wRR{rrA(name, 60, "192.0.2.9")}), 200
+					}
+					return wResponse(id, name, qtype, 0, []wRR{rrAAAA(name, 60, "2001:db8::9")}), 200
+				})
+				nEval++
+				func() {
+					defer func() {
+						if p := recover(); p != nil {
+							report("partial-failure", fmt.Sprintf("%s/%d", failing, how), fmt.Sprint("Resolver.Resolve panicked: ", p), nil)
+						}
+					}()
+					res, _ := ech.NewResolver(srv2.url())
+					ctx, cancel := context.WithTimeout(context.Background(), 5*time.Second)
+					defer cancel()
+					rr, err := res.Resolve(ctx, "origin.example")
+					if err == nil {
+						for range rr.Targets("tcp") {
+						}
+					}
+				}()
+				srv2.Close()
+			}
+		}
+	}
+	// an HTTPS answer whose TargetName is far longer than any legal name (the decoder does not cap names): the resolver
+	// goes on to look that target up - whatever it does with it, it does not panic
+	for _, L := range []int{130, 2100} {
+		rd := append(u16(1), bytes.Repeat([]byte{1, 'a'}, L)...)
+		rd = append(rd, 0)
+		m := []byte{0, 0, 0x81, 0x80, 0, 1, 0, 1, 0, 0, 0, 0}
+		m = append(m, wName("a.bc")...)
+		m = append(m, u16(tHTTPS)...)
+		m = append(m, u16(1)...)
+		m = append(m, wRR{Owner: "a.bc", Type: tHTTPS, TTL: 60, Data: rd}.bytes()...)
+		if dm := check("bigtarget", fmt.Sprint(L), m); dm != nil {
+			resolverRuns = 0
+			drive("bigtarget", fmt.Sprint(L), m)
 		}
 	}
 	// a name of thousands of labels (the decoder does not cap names) referenced by hundreds of questions: the cost per
